@@ -21,6 +21,12 @@ def run(c, replay):
                      three_sequence_lines="%s catalogue from 5 representative carried-over states" % c.pick("24-entry core", "full")))
     c.assumptions += [
         "the documented regular expression is the one in the comment above nextAnsiEscapeSequence (src/ansi.go), copied into the harness",
+        "on arbitrary bytes (layers bytes, osc-bytes) the reference is that expression plus the leniency documented in matchOperatingSystemCommand: "
+        "ESC ] 8 ; ; ESC (an OSC-8 close whose terminator lost its backslash; only when no backslash follows) is one sequence - malformed input, "
+        "and the text after it is kept; on grammar-generated input the reference is the documented expression itself",
+        "by the documented grammar a charset designation is parsed like a CSI (ESC [()] params final-letter): ESC ( B is one sequence, while in "
+        "ESC ( 0 a the 0 is a parameter and a the final byte (one sequence), and ESC ( 0 alone is ESC ( followed by the text 0; this is the documented "
+        "behaviour, so digit-final designations are not in the catalogue of well-formed sequences",
         "attributes fzf cannot represent (SGR 6, 8, 26, 28) and the line-background bookkeeping of CSI 0K are not part of the per-character observation",
         "SGR 0 / empty SGR resets colours and attributes but does not end an OSC-8 hyperlink (as terminals do)",
         "truncated 38/48 forms and empty parameters inside a list are outside the generated class (well-formed sequences only)",
